@@ -160,7 +160,11 @@ func CallGoMethodFunction(env *Zlisp, name string, args []Sexp) (Sexp, error) {
 			default:
 				// go through the type registry
 				found := false
-				for hashName, factory := range GoStructRegistry.Registry {
+				// walk the registry in sorted name order: a type registered
+				// under several names must give the same record type name
+				// on every run (map order is random).
+				for _, hashName := range sortedTypeNames(GoStructRegistry.Registry) {
+					factory := GoStructRegistry.Registry[hashName]
 					st, err := factory.Factory(env, nil)
 					if err != nil {
 						return SexpNull, fmt.Errorf("MakeHash '%s' problem on Factory call: %s",
